@@ -108,7 +108,8 @@ def build_op(req, resp):
     for i, call in enumerate(req.get("calls") or []):
         method = None
         for attr in dir(builder):
-            if not attr.startswith("_") and norm(attr) == norm(call["option"]):
+            # reserved words are escaped by cog with a `_val` suffix (from → from_val)
+            if not attr.startswith("_") and norm(attr) in (norm(call["option"]), norm(call["option"]) + "val"):
                 method = getattr(builder, attr)
         if method is None:
             resp["harness_err"] = "no method for option " + call["option"]
